@@ -179,7 +179,7 @@ theorem checkDepartures_c07 (cfg : Cfg) (a : A) (md : Option Nat) (evs : List Ev
 /-- the subscribers of CLIENT_CLOSED that cannot be handed one and stay -/
 def dowed (cfg : Cfg) (a : A) (evs : List Ev) : List AMod :=
   a.mods.filter (fun m => m.alive && subscribed m cfg.mtClosed && !m.isLogger && !a.w.contains m.uid &&
-    !(closes evs).contains m.uid)
+    !a.wAny.contains m.uid && !(closes evs).contains m.uid)
 
 /-- who must hear about it -/
 def dfobs (cfg : Cfg) (a : A) (evs : List Ev) : List AMod :=
@@ -214,7 +214,7 @@ theorem checkDepartures_c14 (cfg : Cfg) (a : A) (md : Option Nat) (evs : List Ev
   have how : owed = dowed cfg a evs := by
     show List.filter _ a6.mods = _
     unfold dowed
-    rw [hm6, hw6]
+    rw [hm6, hw6, x6.wAny]
   have hfo : fobs = dfobs cfg a evs := by
     show List.filter _ a6.mods = _
     unfold dfobs ready A.failing
